@@ -145,7 +145,13 @@ func DumpBank(n *chain.Node, ctx sdk.Ctx) Bank {
 		b.Accts = append(b.Accts, ac)
 	}
 	sort.Slice(b.Accts, func(i, j int) bool { return b.Accts[i].Addr < b.Accts[j].Addr })
-	sup := ak.GetSupply(ctx)
+	// the recorded supply, read the way a query of this state reads it (a context flagged as
+	// "previous state" bypasses every node-local cache of the keepers)
+	var sctx sdk.Ctx = ctx
+	if c, ok := ctx.(sdk.Context); ok {
+		sctx = c.SetPrevCtx(true)
+	}
+	sup := ak.GetSupply(sctx)
 	if sup == nil {
 		b.Supply = "nil"
 		return b
